@@ -313,6 +313,10 @@ where
 }
 
 pub(crate) const BUFFER_SIZE: usize = 256;
+#[cfg(not(zlink_verif))]
 const MAX_BUFFER_SIZE: usize = 100 * 1024 * 1024; // Don't allow buffers over 100MB.
+// Verification hook: a low limit so that boundary sweeps can reach it in both directions.
+#[cfg(zlink_verif)]
+const MAX_BUFFER_SIZE: usize = 64 * 1024;
 
 static NEXT_ID: AtomicUsize = AtomicUsize::new(0);
